@@ -203,7 +203,7 @@ func makeSpec(c cell, idx int, r *rand.Rand) spec {
 		}
 	}
 	if p(35) {
-		s.SCT = 1 + r.IntN(3)
+		s.SCT = 1 + r.IntN(5)
 	}
 	if p(35) {
 		s.OCSP = 20 + r.IntN(400)
@@ -553,8 +553,8 @@ func runCase(s spec) *caseRun {
 	}
 	leaf := leafOf()
 	var scts [][]byte
-	for i := 0; i < s.SCT; i++ {
-		scts = append(scts, makeSCT(r))
+	if s.SCT > 0 {
+		scts = makeSCTList(r, s.SCT)
 	}
 	var staple []byte
 	if s.OCSP > 0 {
@@ -742,6 +742,39 @@ func keylogAll(kl, label string) [][]byte {
 				out = append(out, v)
 			}
 		}
+	}
+	return out
+}
+
+// makeSCTList builds a SignedCertificateTimestampList of n entries mixing well-formed and malformed
+// SerializedSCTs in a random order: valid, valid with a large signature, truncated, garbage, unknown version,
+// valid followed by trailing bytes and (rarely, it makes zcrypto reject the ServerHello) empty.
+func makeSCTList(r *rand.Rand, n int) [][]byte {
+	var out [][]byte
+	for i := 0; i < n; i++ {
+		v := makeSCT(r)
+		switch x := r.IntN(100); {
+		case x < 40:
+		case x < 50: // oversized but well-formed
+			var w wr
+			w.raw(v[:41])
+			w.vec16(randBytes(r, r.IntN(300)))
+			w.u8(4)
+			w.u8(1)
+			w.vec16(randBytes(r, 1500+r.IntN(3000)))
+			v = w.b
+		case x < 68: // truncated
+			v = v[:1+r.IntN(len(v)-1)]
+		case x < 82: // garbage
+			v = randBytes(r, 1+r.IntN(90))
+		case x < 89: // unknown version
+			v[0] = byte(1 + r.IntN(255))
+		case x < 97: // trailing bytes
+			v = append(v, randBytes(r, 1+r.IntN(8))...)
+		default:
+			v = nil
+		}
+		out = append(out, v)
 	}
 	return out
 }
